@@ -209,7 +209,7 @@ ADD = {
  "C01": " EXACT coverage (C01_cover_exact): when no input is zero-length the only missing points are the microsecond before a genuine touching point; with a zero-length input this fails (C01_cover_exact_zero_length_refuted, known finding)." + KT % ("C01", ", total correctness (it terminates and returns fix_iset, no hypothesis)"),
  "C02": " Wrapper-level endpoint, list-level commutativity and measure theorems (loss at most 1 us per junction)." + KT % ("C02", ": jitunion/jitunion_isets total, jitintersect/jitdiff partial + termination (C15b)"),
  "C03": " Support, constructor and per-sample composition clauses are theorems too." + KT % ("C03", ": jitrestrict, jitrestrict_with_count, jitin_interval, total correctness"),
- "C05": KT % ("C05", ": jitcount and _jitbin_array for every even bin size in ticks; odd sizes are a recorded finding (C05_odd_bin_size_refuted) unless repaired"),
+ "C05": KT % ("C05", ": jitcount and _jitbin_array for EVERY positive bin size (the half-tick comparison was repaired in 4a0e79d; C05_odd_bin_size_refuted is about the frozen old text)"),
  "C06": " End-to-end and interpolate-slice theorems." + KT % ("C06", ": jitvaluefrom, no hypothesis, any mode"),
  "C07": " Exact hypotheses for dropna (necessary and sufficient) and refutation witnesses for duplicates / 1 ns neighbours." + KT % ("C07", ": jitthreshold and jitremove_nan"),
  "C15": " TERMINATION of all 17 kernel texts on their safety preconditions (Properties/C15b.v, total-correctness calculus Jit/Total.v with a variant per while loop).",
